@@ -285,12 +285,12 @@ def encBlock (qa : Bool) (items : List Item) : Bytes :=
 
 /-- an item is well formed for a decoder when its bytes decode to its value whatever follows -/
 def Item.ok (valid : List Nat) (dec : Bytes → Option (List Char)) (qa : Bool) (i : Item) : Prop :=
-  i.t.code < 256 ∧ valid.contains i.t.code = true ∧ i.t.name.length < 2 ^ 64 ∧ (qa = false → i.t.name = []) ∧
+  i.t.code < 256 ∧ valid.contains i.t.code = true ∧ i.t.name.length < 2 ^ 63 ∧ (qa = false → i.t.name = []) ∧
   (i.isNull = true → i.bytes = []) ∧
   (i.isNull = false → ∀ rest, readValue dec i.t (i.bytes ++ rest) = some (i.v, rest))
 
 theorem readTypes_enc (valid : List Nat) (qa : Bool) (items : List Item) (rest : Bytes)
-    (h : ∀ i ∈ items, i.t.code < 256 ∧ valid.contains i.t.code = true ∧ i.t.name.length < 2 ^ 64 ∧ (qa = false → i.t.name = [])) :
+    (h : ∀ i ∈ items, i.t.code < 256 ∧ valid.contains i.t.code = true ∧ i.t.name.length < 2 ^ 63 ∧ (qa = false → i.t.name = [])) :
     readTypes valid qa items.length ((items.map (fun i => encType qa i.t)).flatten ++ rest) =
       some (items.map (fun i => i.t), rest) := by
   induction items with
@@ -375,7 +375,7 @@ theorem readParams_enc (valid : List Nat) (dec : Bytes → Option (List Char)) (
 /-! per-kind value lemmas (what makes `Item.ok` satisfiable) -/
 
 theorem readValue_str (dec : Bytes → Option (List Char)) (t : PType) (raw : Bytes) (s : List Char) (rest : Bytes)
-    (ht : strCodes.contains t.code = true) (hd : dec raw = some s) (hl : raw.length < 2 ^ 64) :
+    (ht : strCodes.contains t.code = true) (hd : dec raw = some s) (hl : raw.length < 2 ^ 63) :
     readValue dec t (encStr raw ++ rest) = some (.str s, rest) := by
   unfold readValue
   rw [if_pos ht, (decStr_encStr raw hl rest).1]
